@@ -87,12 +87,12 @@ def run_site(unit, fn, loop, total=6):
                 l = A.strip_casts(A.kids(n)[0])
                 if l.get("kind") != "DeclRefExpr":
                     return 0
-            if k == "UnaryOperator" and n.get("opcode") in ("*", "&"):
+            if k == "UnaryOperator" and n.get("opcode") in ("*", "&", "__extension__"):
                 return 0
             if k == "ArraySubscriptExpr":
                 return 0
-            if k == "StringLiteral":
-                return 0
+            if k in ("StringLiteral", "UnaryExprOrTypeTraitExpr", "StmtExpr", "PredefinedExpr"):
+                return 0                     # also what glibc's assert() expands to when assertions are compiled in
             return NotImplemented
         env = {}
         for p in ps:
